@@ -246,7 +246,7 @@ fn plan_c01(args: &Args, ev: &mut Ev) -> Vec<Planned> {
     for c in stateful_cases() {
         v.push(Planned { case: c, mode: "bfs", depth: if thorough { 5 } else { 3 } });
     }
-    let ms = crate::props::families::members(&["fixtures", "funcs", "locals", "struct", "reach", "ctrl", "idshift"], args, ev);
+    let ms = crate::props::families::members(&["fixtures", "funcs", "locals", "struct", "reach", "ctrl", "idshift", "minimal"], args, ev);
     for m in &ms {
         v.push(Planned { case: Case::of(m), mode: if m.family == "fixtures" { "bfs" } else { "batch" }, depth: 2 });
     }
